@@ -106,9 +106,15 @@ func setup(dir string, b base) (*world, error) {
 
 	now := time.Now()
 	for _, n := range []string{"d1", "d2"} {
-		for _, r := range runsOf(b, n) {
+		for i, r := range runsOf(b, n) {
 			if r.Live {
 				continue
+			}
+			// every run is recorded under the definition it ran with; the newest one's stays in place
+			if b.Steps != nil {
+				if err := os.WriteFile(w.loc(n), []byte(dagText(stepsOfRun(b, n, i), "one")), 0o644); err != nil {
+					return nil, err
+				}
 			}
 			if err := w.record(n, r.ID, r.State, now.Add(-time.Duration(r.Age)*time.Second)); err != nil {
 				return nil, err
@@ -146,12 +152,15 @@ func (w *world) record(name, reqID, state string, at time.Time) error {
 	switch state {
 	case "finished":
 		st = model.NewStatus(d, nil, scheduler.StatusSuccess, 4242, &at, &end)
-		set(0, scheduler.NodeStatusSuccess, "")
-		set(1, scheduler.NodeStatusSuccess, "")
-	case "failed":
+		for i := range st.Nodes {
+			set(i, scheduler.NodeStatusSuccess, "")
+		}
+	case "failed": // every step succeeded but the last one
 		st = model.NewStatus(d, nil, scheduler.StatusError, 4242, &at, &end)
-		set(0, scheduler.NodeStatusSuccess, "")
-		set(1, scheduler.NodeStatusError, "exit status 1")
+		for i := range st.Nodes {
+			set(i, scheduler.NodeStatusSuccess, "")
+		}
+		set(len(st.Nodes)-1, scheduler.NodeStatusError, "exit status 1")
 	case "canceled":
 		st = model.NewStatus(d, nil, scheduler.StatusCancel, 4242, &at, &end)
 		set(0, scheduler.NodeStatusCancel, "")
